@@ -25,6 +25,11 @@ class ForeignMismatch(Exception):
     world it happened in)."""
 
 
+class RomUndefined(Exception):
+    """A ROM of a live (transformed / copied) block has no word where the design it was
+    derived from has one: the transformation lost ROM contents or its padding flag."""
+
+
 class RunTimeout(Exception):
     """Raised by the SIGALRM handler (lives here, not in worker.py, because `python -m
     verifsim.worker` loads worker.py as __main__ and a second import would define a second,
